@@ -1,7 +1,9 @@
 package verifharness
 
 import (
+	"bytes"
 	"errors"
+	"fmt"
 	"io"
 	"os"
 	"time"
@@ -61,7 +63,17 @@ type MemFile struct {
 	Plan     *FaultPlan
 	Yield    func(point string)
 	Name     string
-	// StatErrs makes Stat fail like other calls when a plan is set.
+	// Mirror, when set, is a real file that receives every write and truncate
+	// and answers every read and Stat a second time: any difference between the
+	// in-memory model of a file and os.File is a harness defect (mirrorDivergence).
+	Mirror *os.File
+}
+
+// mirrorDivergence is the panic value raised when MemFile and os.File disagree.
+type mirrorDivergence struct{ msg string }
+
+func (m *MemFile) diverge(format string, a ...interface{}) {
+	panic(mirrorDivergence{fmt.Sprintf("MemFile diverges from os.File: "+format, a...)})
 }
 
 // NewMemFile returns an empty file that logs calls.
@@ -126,6 +138,18 @@ func (m *MemFile) ReadAt(p []byte, off int64) (int, error) {
 	if off < 0 {
 		return 0, errors.New("memfile: negative offset")
 	}
+	n, err := m.readMem(p, off)
+	if m.Mirror != nil {
+		q := make([]byte, len(p))
+		n2, err2 := m.Mirror.ReadAt(q, off)
+		if n2 != n || (err == nil) != (err2 == nil) || (err2 != nil && err2 != io.EOF) || !bytes.Equal(p[:n], q[:n2]) {
+			m.diverge("ReadAt(len %d, off %d) = (%d, %v) in memory, (%d, %v) on the real file", len(p), off, n, err, n2, err2)
+		}
+	}
+	return n, err
+}
+
+func (m *MemFile) readMem(p []byte, off int64) (int, error) {
 	if off >= int64(len(m.B)) {
 		if len(p) == 0 {
 			return 0, nil
@@ -179,11 +203,13 @@ func (m *MemFile) WriteAt(p []byte, off int64) (int, error) {
 		}
 		if j > 0 {
 			m.writeRaw(p[:j], off)
+			m.mirrorWrite(p[:j], off)
 		}
 		return j, errInjected
 	}
 	if len(p) > 0 {
 		m.writeRaw(p, off)
+		m.mirrorWrite(p, off)
 	}
 	return len(p), nil
 }
@@ -194,7 +220,21 @@ func (m *MemFile) Stat() (os.FileInfo, error) {
 	if fail {
 		return nil, errInjected
 	}
+	if m.Mirror != nil {
+		fi, err := m.Mirror.Stat()
+		if err != nil || fi.Size() != int64(len(m.B)) {
+			m.diverge("Stat: %d bytes in memory, real file %v (%v)", len(m.B), fi, err)
+		}
+	}
 	return memFI{int64(len(m.B))}, nil
+}
+
+func (m *MemFile) mirrorWrite(p []byte, off int64) {
+	if m.Mirror != nil {
+		if n, err := m.Mirror.WriteAt(p, off); err != nil || n != len(p) {
+			m.diverge("WriteAt(len %d, off %d) on the real file: %d, %v", len(p), off, n, err)
+		}
+	}
 }
 
 func (m *MemFile) Truncate(sz int64) error {
@@ -210,6 +250,11 @@ func (m *MemFile) Truncate(sz int64) error {
 		m.B = m.B[:sz]
 	} else {
 		m.B = append(m.B, make([]byte, sz-int64(len(m.B)))...)
+	}
+	if m.Mirror != nil {
+		if err := m.Mirror.Truncate(sz); err != nil {
+			m.diverge("Truncate(%d) on the real file: %v", sz, err)
+		}
 	}
 	return nil
 }
